@@ -698,6 +698,30 @@ func exec(t []string) (string, string) {
 		c.allow = -1
 		killAll()
 		return "crashed", "-"
+	case "delstamp": // the ADR's operator remediation: node down, stamp key deleted by hand
+		if len(t) != 1 {
+			return bad, "-"
+		}
+		c.mem.Delete(append([]byte{bp.PrefixMeta}, "fastidx"...))
+		killAll()
+		return "crashed", "-"
+	case "crashimport": // Import → dropFastIndex (stamp delete commit, then the clear chunk), cut after n writes, abandoned
+		if len(t) != 2 {
+			return bad, "-"
+		}
+		n, ok := pNat(t[1])
+		if !ok {
+			return bad, "-"
+		}
+		tr := newTree(true, 0, 100)
+		lat, _ := tr.LoadReadonly()
+		c.allow = int(n)
+		if imp, _ := tr.Import(lat + 1); imp != nil {
+			imp.Close()
+		}
+		c.allow = -1
+		killAll()
+		return "crashed", "-"
 	case "dump":
 		if len(t) != 1 {
 			return bad, "-"
@@ -1121,7 +1145,29 @@ func (g *genState) step() {
 	case x < 847:
 		w.Op("crashopen %d %d", r.Intn(2), r.Intn(3))
 		g.killAll()
-	case x < 870:
+	case x < 859: // entries without a stamp: operator remediation / Import aborted inside dropFastIndex
+		if r.Chance(45) {
+			w.Op("delstamp")
+		} else {
+			w.Op("crashimport %d", r.Intn(4))
+		}
+		g.killAll()
+		if r.Chance(85) { // the restart window: read-only / query views before any writer rebuild
+			slot := r.Range(1, 2)
+			w.Op("open %d 1 ro 0 0 %d", slot, g.cache())
+			g.handles[slot] = true
+			vs := r.Intn(3)
+			w.Op("imm %d %d %d", slot, vs, g.latest)
+			g.views[vs] = true
+			for i := r.Range(2, 6); i > 0; i-- {
+				if r.Chance(60) {
+					w.Op("getv %d %s %d", slot, g.key(), g.latest)
+				} else {
+					w.Op("vget %d %s", vs, g.key())
+				}
+			}
+		}
+	case x < 880:
 		w.Op("dump")
 	default:
 		g.reads(1)
@@ -1135,7 +1181,17 @@ func script(w *kit.Out, r *kit.Rand, id string, n int, keys []string, allowBad b
 		g.step()
 	}
 	w.Op("dump")
-	// final sweep: an in-contract restart, then every key through every read path
+	// final sweep: a read-only view of whatever is on disk now (stamp behind / missing included) ...
+	w.Op("open 1 1 ro 0 0 100")
+	w.Op("imm 1 0 %d", g.latest)
+	for _, k := range keys {
+		if len(keys) > 12 && r.Chance(70) {
+			continue
+		}
+		w.Op("getv 1 %s %d", k, g.latest)
+		w.Op("vget 0 %s", k)
+	}
+	// ... then an in-contract restart, and every key through every read path
 	w.Op("open 0 1 load 0 0 100")
 	for _, k := range keys {
 		if len(keys) > 12 && r.Chance(70) {
@@ -1212,6 +1268,23 @@ func boundary(w *kit.Out) {
 		"open 0 1 load 0 0 100", "set 0 61 01", "save 0", "set 0 61 02", "save 0", "set 0 62 01", "save 0", "imm 0 0 1", "imm 0 1 3", "open 1 1 ro 0 0 100", "open 2 1 lv 1 0 100",
 		"prune 0 3", "prune 0 9", "set 0 63 01", "prune 0 1", "rollback 0", "prune 0 0", "prune 0 1", "vget 0 61", "vget 1 61", "get 1 61", "get 2 61", "getv 0 61 1", "getv 0 61 2", "dump",
 		"prune 0 1", "prune 0 2", "dump", "get 0 61", "getv 0 61 3", "open 0 1 loadlv 2 0 100", "open 0 1 load 0 0 100", "get 0 62")
+	off := []string{"open 0 1 load 0 0 100", "set 0 61 01", "set 0 62 01", "set 0 63 01", "save 0",
+		"open 0 0 load 0 0 100", "set 0 61 02", "rm 0 62", "save 0", "dump"}
+	roReads := []string{"dump", "open 1 1 ro 0 0 100", "getv 1 61 2", "getv 1 62 2", "getv 1 63 2", "getv 1 61 1", "getv 1 62 1",
+		"imm 1 0 2", "vget 0 61", "vget 0 62", "vget 0 63", "imm 1 1 1", "vget 1 61", "vget 1 62",
+		"open 2 1 lv 2 0 0", "getv 2 61 2", "getv 2 62 2", "imm 2 2 2", "vget 2 61", "vget 2 62",
+		"open 0 0 load 0 0 100", "getv 0 61 2", "getv 0 62 2", "set 0 63 05", "save 0", "getv 1 63 3", "getv 1 61 3", "getv 1 62 3",
+		"open 0 1 load 0 0 100", "dump", "get 0 61", "get 0 62", "get 0 63", "getv 0 61 2", "getv 0 62 2", "getv 1 61 3", "vget 0 61"}
+	// stale 'F' entries on disk and NO stamp, read through every read-only route before any rebuild
+	lines("b/missing-stamp/delstamp", append(append(append([]string{}, off...), "delstamp"), roReads...)...)
+	for n := 0; n < 4; n++ {
+		lines(fmt.Sprintf("b/missing-stamp/crashimport-%d", n),
+			append(append(append([]string{}, off...), fmt.Sprintf("crashimport %d", n)), roReads...)...)
+	}
+	lines("b/missing-stamp/in-sync-index",
+		"open 0 1 load 0 0 100", "set 0 61 01", "save 0", "set 0 61 02", "set 0 62 02", "save 0", "delstamp", "dump",
+		"open 1 1 ro 0 0 100", "getv 1 61 2", "getv 1 61 1", "getv 1 62 1", "crashimport 1", "open 1 1 ro 0 0 100", "getv 1 61 2",
+		"delstamp", "crashimport 0", "crashimport 9", "dump", "open 0 1 load 0 0 100", "dump", "get 0 61", "delstamp 1", "crashimport", "crashimport x")
 	lines("b/slots-and-badops",
 		"set 1 61 01", "rm 2 61", "save 1", "rollback 2", "prune 1 1", "failsave 2", "open 0 1 load 0 1 100", "open 3 1 load 0 0 100", "open 0 2 load 0 0 100", "open 0 1 loadlv 0 0 100",
 		"open 0 1 bogus 0 0 100", "get 3 61", "vget 3 61", "imm 0 3 1", "imm 1 0 1", "vget 0 61", "getv 1 61 1", "open 1 1 lv 4 0 100", "get 1 61", "open 1 1 loadlv 4 0 100", "set 0 6 01", "set 0 6G 01",
@@ -1221,7 +1294,7 @@ func boundary(w *kit.Out) {
 func malformed(w *kit.Out, r *kit.Rand, n int) {
 	w.Case("malformed")
 	w.Op("open 0 1 load 0 0 100")
-	toks := []string{"open", "set", "rm", "save", "failsave", "rollback", "prune", "get", "getv", "imm", "vget", "crashsave", "crashprune", "crashopen", "dump",
+	toks := []string{"open", "set", "rm", "save", "failsave", "rollback", "prune", "get", "getv", "imm", "vget", "crashsave", "crashprune", "crashopen", "dump", "delstamp", "crashimport",
 		"load", "ro", "lv", "loadlv", "0", "1", "2", "3", "-1", "00", "61", "6", "e", "-", "zz", "FF", "0x61", "12345678", "100", ""}
 	for i := 0; i < n; i++ {
 		k := r.Range(1, 7)
